@@ -558,6 +558,20 @@ def F2(ctx: Ctx) -> RuleResult:
         r.fail('HplSpecification.properties:converter', f'converter {ast.unparse(conv)} may reorder / drop / deduplicate properties', f.where)
     else:
         r.ok('HplSpecification.properties: stored as given')
+    # a file is exactly its properties: building the specification object runs no check of its own that could reject
+    # a sequence of individually valid properties
+    for hook in ('__attrs_post_init__',):
+        hf = sp.resolve(hook)
+        if hf is not None:
+            raising = [n_ for n_ in ast.walk(hf.node) if isinstance(n_, ast.Raise)]
+            calls = [ast.unparse(n_.func) for n_ in ast.walk(hf.node) if isinstance(n_, ast.Call)]
+            if raising or any(c_.startswith('self.') for c_ in calls):
+                r.fail('HplSpecification:construction-check', f'HplSpecification.{hook} runs checks on construction ({", ".join(calls)[:80]}): a file whose properties are all valid can be rejected as a whole', hf.where)
+    for fld, vs in sp.validators.items():
+        for vname in vs:
+            vf = sp.methods[vname]
+            if any(isinstance(n_, ast.Raise) for n_ in ast.walk(vf.node)):
+                r.fail(f'HplSpecification.{fld}:validator', f'validator {vname} of HplSpecification.{fld} can reject a sequence of valid properties', vf.where)
     if 'children' in sp.methods:
         so = ctx.ev.run(sp.methods['children'], {'self': Sym('self', 'HplSpecification')})
         if not (len(so) == 1 and so[0].value == Attr(Sym('self', 'HplSpecification'), 'properties')):
@@ -716,7 +730,8 @@ def D4(ctx: Ctx) -> RuleResult:
         seen[unit] = o.value
     ms = seen.get('ms')
     s = seen.get('s', seen.get('else'))
-    ms_ok = ms in (Op('/', (num, Const(1000.0))), Op('/', (num, Const(1000))), Op('*', (num, Const(0.001))), Op('*', (Const(0.001), num)))
+    # division by exactly 1000: multiplying by the (inexact) constant 0.001 gives other floats (9 ms -> 0.009000000000000001)
+    ms_ok = ms in (Op('/', (num, Const(1000.0))), Op('/', (num, Const(1000))))
     if ms_ok:
         r.ok(f'ms -> {ms!r}')
     else:
